@@ -119,3 +119,17 @@ Theorem send_response_tie : forall (reenc : str -> str),
   forall s r, gen_send_response reenc s r = send_response s r.
 Proof. exact EquivServer2_proofs.send_response_tie. Qed.
 Print Assumptions send_response_tie.
+
+(* __init__ and connection_made: the freshly constructed object after connection_made IS the model's initial state - in
+   particular the request timer is armed (loop.call_later(REQUEST_TIMEOUT, self._handle_timeout)), with REQUEST_TIMEOUT = 30 s *)
+Theorem init_tie : gen_init blank = (blank, []).
+Proof. exact EquivServer_proofs.init_tie. Qed.
+Print Assumptions init_tie.
+
+Theorem connection_made_tie : gen_connection_made (fst (gen_init blank)) = (init, []).
+Proof. exact EquivServer_proofs.connection_made_tie. Qed.
+Print Assumptions connection_made_tie.
+
+Theorem request_timeout_value : gen_request_timeout_ms = 30000%N.
+Proof. exact EquivServer_proofs.request_timeout_value. Qed.
+Print Assumptions request_timeout_value.
